@@ -176,11 +176,206 @@ Section HistModel.
   Definition pure_of (h : hmod) (f : list vec -> list vec)
              (g : list vec -> list vec -> list vec -> list (option vec)) : hmod :=
     {| h_ins := h_ins h; h_outs := h_outs h; h_resp := fun mu xs => (mu, f xs); h_sens := fun _ => g |}.
+
+  (* ---- hypotheses on modules and protocol data used by the theorems *)
+  (* shape-correct w.r.t. fixed signal sizes `dims`, and the adjoint sends zero seeds to zero (or None) results
+     (linearity in the seed, C04): for every memory and every evaluation point *)
+  Definition h_shaped (dims : nat -> nat) (h : hmod) : Prop :=
+    forallb (wt_ref dims) (h_ins h) = true /\
+    (forall mu xs, shapes xs (map (ref_dim dims) (h_ins h)) ->
+                   map (@length K) (snd (h_resp h mu xs)) = map dims (h_outs h)) /\
+    (forall mu xs ys ws, shapes xs (map (ref_dim dims) (h_ins h)) -> shapes ws (map dims (h_outs h)) ->
+                         oshapes (h_sens h mu xs ys ws) (map (ref_dim dims) (h_ins h))) /\
+    (forall mu xs ys, shapes xs (map (ref_dim dims) (h_ins h)) ->
+                      Forall2 (fun d n => zeroish n d)
+                              (h_sens h mu xs ys (map (fun o => vzero (dims o)) (h_outs h)))
+                              (map (ref_dim dims) (h_ins h))).
+
+  Definition h_memless (h : hmod) : Prop := exists f g, memoryless h f g.
+
+  Definition seeds_shaped (dims : nat -> nat) (seeds : list (nat * vec)) : Prop :=
+    Forall (fun sw => length (snd sw) = dims (fst sw)) seeds.
+  Definition only_sets (ops : list op) : Prop := Forall (fun o => exists s v, o = OSet s v) ops.
+
+  (* a caching module together with its specification: initial memory, invariant, pure response, pure adjoint *)
+  Record cspec : Type := {
+    c_mu0 : M;
+    c_good : M -> option (list vec) -> Prop;
+    c_f : list vec -> list vec;
+    c_g : list vec -> list vec -> list vec -> list (option vec)
+  }.
+  Definition cc (h : hmod) (sp : cspec) : Prop := cache_correct h (c_mu0 sp) (c_good sp) (c_f sp) (c_g sp).
+  Definition pure_h (h : hmod) (sp : cspec) : hmod := pure_of h (c_f sp) (c_g sp).
+  Fixpoint pures (mods : list hmod) (specs : list cspec) : list hmod :=
+    match mods, specs with
+    | h :: mods', sp :: specs' => pure_h h sp :: pures mods' specs'
+    | _, _ => []
+    end.
 End HistModel.
 
 Arguments hmod {K} M.
 Arguments op {K}.
 Arguments nst {K} M.
+Arguments cspec {K} M.
 Arguments OResp {K}.
 Arguments OSens {K}.
 Arguments OReset {K}.
+
+(* =====================================================================================================
+   The caching modules of /repo as modules with memory.  The numerics are oracles (Section variables); what is
+   modelled is the bookkeeping: what is stored, when it is (re)computed, what it is used for. *)
+
+(* ---- LinSolve (modules/linalg.py): stores the last solution self.u and uses it
+        (a) as initial guess of the next solve, when it has the shape of the new right-hand side (fix F16),
+        (b) in _sensitivity: dA = -lam u^T, db = lam with A^T lam = w.
+        The solver object and the symmetry flags are functions of the matrix CLASS (kept constant in a history). *)
+Section LinSolveModel.
+  Context {K : Type} `{NK : Num K}.
+  Variable solve : list K -> list K -> option (list K) -> list K.   (* matrix (flat), rhs, initial guess *)
+  Variable solveT : list K -> list K -> list K.                     (* transposed solve *)
+  Variable outer_neg : list K -> list K -> list K.                  (* -lam u^T (flat) *)
+
+  Definition guess (mu : option (list K)) (b : list K) : option (list K) :=
+    match mu with
+    | Some u => if Nat.eqb (length u) (length b) then Some u else None
+    | None => None
+    end.
+
+  Definition linsolve_h (ins : list ref) (out : nat) : hmod (option (list K)) :=
+    {| h_ins := ins; h_outs := [out];
+       h_resp := fun mu xs =>
+                   let u := solve (nth 0 xs []) (nth 1 xs []) (guess mu (nth 1 xs [])) in (Some u, [u]);
+       h_sens := fun mu xs ys ws =>
+                   let u := match mu with Some u => u | None => [] end in
+                   let lam := solveT (nth 0 xs []) (nth 0 ws []) in
+                   [Some (outer_neg lam u); Some lam] |}.
+
+  Definition linsolve_f (xs : list (list K)) : list (list K) := [solve (nth 0 xs []) (nth 1 xs []) None].
+  Definition linsolve_g (xs ys ws : list (list K)) : list (option (list K)) :=
+    let lam := solveT (nth 0 xs []) (nth 0 ws []) in [Some (outer_neg lam (nth 0 ys [])); Some lam].
+  (* the stored solution is the one of the latest response *)
+  Definition linsolve_good (mu : option (list K)) (last : option (list (list K))) : Prop :=
+    match last with None => True | Some xs => mu = Some (solve (nth 0 xs []) (nth 1 xs []) None) end.
+End LinSolveModel.
+
+(* ---- OverhangFilter (modules/filter.py): q/shift/backshift are set on the first response as a function of the
+        dtype only (`if self.q is None: self.set_parameters(x.dtype)`); smax is stored by every response and read
+        by the sensitivity *)
+Section OverhangModel.
+  Context {K : Type} `{NK : Num K}.
+  Variable P : Type.                                   (* (q, shift, backshift) *)
+  Variable params_of_dtype : P.                        (* set_parameters(float64) *)
+  Variable sweep : P -> list K -> list K * list K.     (* x |-> (xprint, smax) *)
+  Variable sweep_adj : P -> list K -> list K -> list K -> list K -> list K.  (* x, xprint, smax, seed *)
+
+  Definition overhang_h (r : ref) (out : nat) : hmod (option P * list K) :=
+    {| h_ins := [r]; h_outs := [out];
+       h_resp := fun mu xs =>
+                   let p := match fst mu with None => params_of_dtype | Some p => p end in
+                   let ys := sweep p (nth 0 xs []) in ((Some p, snd ys), [fst ys]);
+       h_sens := fun mu xs ys ws =>
+                   let p := match fst mu with None => params_of_dtype | Some p => p end in
+                   [Some (sweep_adj p (nth 0 xs []) (nth 0 ys []) (snd mu) (nth 0 ws []))] |}.
+
+  Definition overhang_f (xs : list (list K)) : list (list K) := [fst (sweep params_of_dtype (nth 0 xs []))].
+  Definition overhang_g (xs ys ws : list (list K)) : list (option (list K)) :=
+    [Some (sweep_adj params_of_dtype (nth 0 xs []) (nth 0 ys []) (snd (sweep params_of_dtype (nth 0 xs []))) (nth 0 ws []))].
+  Definition overhang_good (mu : option P * list K) (last : option (list (list K))) : Prop :=
+    (fst mu = None \/ fst mu = Some params_of_dtype) /\
+    match last with
+    | None => True
+    | Some xs => fst mu = Some params_of_dtype /\ snd mu = snd (sweep params_of_dtype (nth 0 xs []))
+    end.
+End OverhangModel.
+
+(* ---- SystemOfEquations (modules/linalg.py): the index sets f / p are completed on the first response from the
+        matrix size n (`if self.f is None: self.f = setdiff1d(arange(n), self.p)`) and kept *)
+Section SoEModel.
+  Context {K : Type} `{NK : Num K}.
+  Variable n_of : list (list K) -> nat.                          (* size of the system matrix among the inputs *)
+  Variable complete : nat -> list nat * list nat.                (* (f, p) from n and the constructor arguments *)
+  Variable soe : list nat * list nat -> list (list K) -> list (list K).     (* partitioned solve: [x; b] *)
+  Variable soe_adj : list nat * list nat -> list (list K) -> list (list K) -> list (list K) -> list (option (list K)).
+
+  Definition soe_h (ins : list ref) (outs : list nat) : hmod (option (list nat * list nat)) :=
+    {| h_ins := ins; h_outs := outs;
+       h_resp := fun mu xs =>
+                   let fp := match mu with None => complete (n_of xs) | Some fp => fp end in
+                   (Some fp, soe fp xs);
+       h_sens := fun mu xs ys ws =>
+                   let fp := match mu with None => complete (n_of xs) | Some fp => fp end in
+                   soe_adj fp xs ys ws |}.
+  Definition soe_f (n : nat) (xs : list (list K)) : list (list K) := soe (complete n) xs.
+  Definition soe_g (n : nat) (xs ys ws : list (list K)) : list (option (list K)) := soe_adj (complete n) xs ys ws.
+  Definition soe_good (n : nat) (mu : option (list nat * list nat)) (last : option (list (list K))) : Prop :=
+    mu = None \/ mu = Some (complete n).
+End SoEModel.
+
+(* =====================================================================================================
+   Executable modules used by the correspondence (integer-exact core of tools/checks/C03.py) *)
+From Coq Require Import ZArith.
+From Pymoto Require Import Base.Cmp.
+
+Section ExecModules.
+  Local Open Scope Z_scope.
+  (* what the test modules may remember: the inputs and outputs of the latest evaluation *)
+  Definition zmem : Type := option (list (list Z) * list (list Z)).
+
+  Definition lin_h (ins : list ref) (outs : list nat) (L : lin Z) : hmod zmem :=
+    {| h_ins := ins; h_outs := outs;
+       h_resp := fun mu xs => (mu, lin_fwd L xs);
+       h_sens := fun _ _ _ ws => lin_adj L ws |}.
+
+  (* y = x * x (elementwise), dx = 2 x w *)
+  Definition sq_h (r : ref) (out : nat) : hmod zmem :=
+    {| h_ins := [r]; h_outs := [out];
+       h_resp := fun mu xs => (mu, [map (fun a => a * a) (nth 0 xs [])]);
+       h_sens := fun _ xs _ ws =>
+                   [Some (map (fun p => 2 * fst p * snd p) (combine (nth 0 xs []) (nth 0 ws [])))] |}.
+
+  (* y = a * b (elementwise), da = b w, db = a w *)
+  Definition mul_h (r1 r2 : ref) (out : nat) : hmod zmem :=
+    {| h_ins := [r1; r2]; h_outs := [out];
+       h_resp := fun mu xs => (mu, [map (fun p => fst p * snd p) (combine (nth 0 xs []) (nth 1 xs []))]);
+       h_sens := fun _ xs _ ws =>
+                   [Some (map (fun p => fst p * snd p) (combine (nth 1 xs []) (nth 0 ws [])));
+                    Some (map (fun p => fst p * snd p) (combine (nth 0 xs []) (nth 0 ws [])))] |}.
+
+  (* a user module with a (correct) cache: recomputes only when its inputs changed *)
+  Definition cached_h (ins : list ref) (outs : list nat) (L : lin Z) : hmod zmem :=
+    {| h_ins := ins; h_outs := outs;
+       h_resp := fun mu xs =>
+                   match mu with
+                   | Some (xs0, ys0) => if Zll_eqb xs0 xs then (mu, ys0) else (Some (xs, lin_fwd L xs), lin_fwd L xs)
+                   | None => (Some (xs, lin_fwd L xs), lin_fwd L xs)
+                   end;
+       h_sens := fun _ _ _ ws => lin_adj L ws |}.
+  Definition cached_good (L : lin Z) (mu : zmem) (last : option (list (list Z))) : Prop :=
+    match mu with None => True | Some (xs0, ys0) => ys0 = lin_fwd L xs0 end.
+
+  (* the final observation of a history: states and sensitivities of the first N signals *)
+  Definition observe (N : nat) (x : nst zmem) : list (list Z) * list (option (list Z)) :=
+    (show_t N (s_st x), show_c N (s_se x)).
+  Definition keep_of (l : list nat) : nat -> bool := fun s => mem s l.
+  Definition start (dl : list nat) (keepl : list nat) (mods : list (hmod zmem)) (inputs : list (list Z)) : nst zmem :=
+    fresh (dims_of dl) (keep_of keepl) mods (map (fun _ => None) mods) (env_of inputs).
+End ExecModules.
+
+(* ---- the example network of Props/C03.v (definitions only):
+   0 = x (3, input), 1 = p (2, input, constructed with a sensitivity array: keep_alloc), 2 = a = A x[[0,2]],
+   3 = y = a * a, 4 = g = C1 y + C2 p *)
+Section Example.
+  Definition ex_dims : list nat := [3; 2; 2; 2; 1].
+  Definition ex_keep : list nat := [1].
+  Definition ex_LA : lin Z := mkL [2] [2] [false] [(0, 0, [[1; 2]; [0; -1]]%Z)].
+  Definition ex_LC : lin Z := mkL [2; 2] [1] [false; false] [(0, 0, [[1; -1]]%Z); (0, 1, [[2; 1]]%Z)].
+  Definition ex_mods : list (hmod zmem) :=
+    [lin_h [RSlice 0 [0; 2]] [2] ex_LA; sq_h (RSig 2) 3; lin_h [RSig 3; RSig 1] [4] ex_LC].
+  Definition ex_mods_cached : list (hmod zmem) :=
+    [lin_h [RSlice 0 [0; 2]] [2] ex_LA; sq_h (RSig 2) 3; cached_h [RSig 3; RSig 1] [4] ex_LC].
+  Definition ex_inputs : list (list Z) := [[1; 2; -1]; [2; 1]]%Z.
+  Definition ex_hist : list (@op Z) :=
+    [OResp; OSeed 4 [1]%Z; OSens; OSens; OSet 0 [0; 1; 2]%Z; OResp; OSeed 3 [1; -1]%Z; OSens].
+  Definition ex_sets : list (@op Z) := [OSet 1 [1; 1]%Z].
+  Definition ex_seeds : list (nat * list Z) := [(4, [2]%Z)].
+End Example.
